@@ -326,7 +326,10 @@ def replay(path):
                 B = PauliErrorModel(d_[0], d_[1], rz_, deformation_name=nameB, deformation_kwargs=kwB)
                 MatchingDecoder(code, A, 0.25)
                 decB = MatchingDecoder(code, B, 0.25)
-                wx, wz = B.get_weights(code, 0.25)
+                # independent LLR of B's own flip marginals (not B.get_weights, which is code under test)
+                _, bx, by, bz = B.probability_distribution(code, 0.25)
+                wx = -np.log((bx + by + EPS) / (1 - (bx + by) + EPS))
+                wz = -np.log((bz + by + EPS) / (1 - (bz + by) + EPS))
                 for matcher, want in ((decB.matcher_x, wx), (decB.matcher_z, wz)):
                     got = {}
                     for u, v, attr in matcher.edges():
@@ -357,6 +360,11 @@ def replay(path):
                 alt = {k: v.copy() for k, v in cands[-1].items()}
                 alt['X'][::2], alt['Z'][::2] = qz, qx          # alternating bias
                 cands.append(alt)
+            rg = np.random.default_rng(9)
+            while len(cands) < 17:                             # per-qubit random channels, flip marginals < 1/2
+                d_ = rg.dirichlet([1.0, 0.6, 0.6, 0.6], size=n)
+                if ((d_[:, 1] + d_[:, 2]) < 0.49).all() and ((d_[:, 3] + d_[:, 2]) < 0.49).all():
+                    cands.append({'I': d_[:, 0], 'X': d_[:, 1], 'Y': d_[:, 2], 'Z': d_[:, 3]})
             for q in cands:
                 class Model(PauliErrorModel):
                     def probability_distribution(self, code_, error_rate):
@@ -367,6 +375,10 @@ def replay(path):
                 wx = -np.log((mX + EPS) / (1 - mX + EPS))
                 wz = -np.log((mZ + EPS) / (1 - mZ + EPS))
                 errs = [e] + [np.eye(2 * n, dtype=np.uint8)[i] for i in range(2 * n)]
+                if n <= 9:
+                    I2 = np.eye(2 * n, dtype=np.uint8)
+                    errs += [I2[i] ^ I2[j] for i in range(n) for j in range(i + 1, n)]
+                    errs += [I2[n + i] ^ I2[n + j] for i in range(n) for j in range(i + 1, n)]
                 for ee in errs:
                     s = code.measure_syndrome(ee)
                     c = np.asarray(dec.decode(s))
